@@ -33,30 +33,34 @@ const (
 
 // Op is one step of a history.
 type Op struct {
-	Op    string  `json:"op"` // WC LABEL PUB BLK
-	Req   string  `json:"req,omitempty"`
-	Path  int     `json:"path,omitempty"` // 0 none, 1 / 2 = scratch base directory A / B
-	L22   bool    `json:"l22,omitempty"`
-	L3    bool    `json:"l3,omitempty"`
-	OFF   bool    `json:"off,omitempty"`
-	Label string  `json:"label,omitempty"`
-	Ch    int     `json:"ch,omitempty"`
-	N     int     `json:"n,omitempty"`
-	Ext   []int64 `json:"ext,omitempty"`
-	Drops int     `json:"drops,omitempty"`
-	First int64   `json:"first,omitempty"`
-	Empty bool    `json:"empty,omitempty"` // BLK: the block carries zero samples per channel
+	Op       string  `json:"op"` // WC LABEL PUB BLK
+	Req      string  `json:"req,omitempty"`
+	Path     int     `json:"path,omitempty"` // 0 none, 1 / 2 = scratch base directory A / B, 3 = a path that cannot be created (below a regular file)
+	L22      bool    `json:"l22,omitempty"`
+	L3       bool    `json:"l3,omitempty"`
+	OFF      bool    `json:"off,omitempty"`
+	Label    string  `json:"label,omitempty"`
+	Ch       int     `json:"ch,omitempty"`
+	N        int     `json:"n,omitempty"`
+	Ext      []int64 `json:"ext,omitempty"`
+	Drops    int     `json:"drops,omitempty"`
+	First    int64   `json:"first,omitempty"`
+	Empty    bool    `json:"empty,omitempty"`    // BLK: the block carries zero samples per channel
+	TickExt  bool    `json:"tickext,omitempty"`  // BLK: the external-trigger flush ticker is due at this block
+	TickDrop bool    `json:"tickdrop,omitempty"` // BLK: the data-drop flush ticker is due at this block
+	Off      int64   `json:"tsoff,omitempty"`    // TLABEL: supplied time stamp = case start + Off ns (Off != 0)
 }
 
 // Case is a configuration plus a history.
 type Case struct {
-	ID    int64   `json:"id"`
-	Proj  []bool  `json:"proj"`            // per channel: has projectors
-	Base  int     `json:"base"`            // initial BasePath: 0 empty, 1, 2
-	Pre   [][]int `json:"pre,omitempty"`   // numbered entries that already exist under base 1 / base 2 (value >= 10000: a plain file named value-10000)
-	Map   int     `json:"map"`             // -1 no map, else number of pixels in the loaded map
-	Fault bool    `json:"fault,omitempty"` // fault stream: after the ops, break the experiment-state file and STOP
-	Ops   []Op    `json:"ops"`
+	ID         int64   `json:"id"`
+	Proj       []bool  `json:"proj"`                 // per channel: has projectors
+	Base       int     `json:"base"`                 // initial BasePath: 0 empty, 1, 2
+	Pre        [][]int `json:"pre,omitempty"`        // numbered entries that already exist under base 1 / base 2 (value >= 10000: a plain file named value-10000)
+	Map        int     `json:"map"`                  // -1 no map, else number of pixels in the loaded map
+	Fault      bool    `json:"fault,omitempty"`      // fault stream: after the ops, break the experiment-state file and STOP
+	FaultStart *Op     `json:"faultstart,omitempty"` // fault stream, second stage: then this START, then one record to every channel
+	Ops        []Op    `json:"ops"`
 }
 
 // Rep is the projection of ComputeWritingState().
@@ -98,23 +102,26 @@ type SideFiles struct {
 	Drop         [][2]int64
 	StatePresent bool
 	Labels       []string
-	FormatOK     bool   // headers exact, line formats exact, time stamps decimal, non-decreasing and inside the case's time window
-	Why          string `json:",omitempty"`
+	Stamps       []int64 // per label line: 0 = stamped by the implementation, else the offset of the supplied time stamp
+	FormatOK     bool    // headers exact, line formats exact, time stamps decimal, non-decreasing and inside the case's time window
+	Why          string  `json:",omitempty"`
 }
 
 // Session is one case being run.
 type Session struct {
-	C      *Case
-	B      *dastard.VerifBench
-	RPC    *dastard.VerifRPC
-	Root   string
-	Bases  []string
-	Today  string
-	T0     time.Time
-	Names  []string
-	frame  int64
-	patRe  *regexp.Regexp
-	subDiv int
+	C        *Case
+	B        *dastard.VerifBench
+	RPC      *dastard.VerifRPC
+	Root     string
+	Bases    []string
+	Today    string
+	T0       time.Time
+	Names    []string
+	frame    int64
+	patRe    *regexp.Regexp
+	subDiv   int
+	Tk       *dastard.VerifTickers
+	supplied map[int64]int64 // absolute supplied time stamp -> offset
 }
 
 func bytesOf(s string) string { return lib.ZListBytes([]byte(s)) }
@@ -206,7 +213,7 @@ func (c *Case) Sanitize() {
 	if len(c.Proj) > 8 {
 		c.Proj = c.Proj[:8]
 	}
-	if c.Base < 0 || c.Base > 2 {
+	if c.Base < 0 || c.Base > 3 {
 		c.Base = 0
 	}
 	if c.Map < -1 {
@@ -214,7 +221,7 @@ func (c *Case) Sanitize() {
 	}
 	for i := range c.Ops {
 		o := &c.Ops[i]
-		if o.Path < 0 || o.Path > 2 {
+		if o.Path < 0 || o.Path > 3 {
 			o.Path = 0
 		}
 		if o.N > 40 {
@@ -241,7 +248,11 @@ func NewSession(c *Case) (*Session, error) {
 	if err := os.MkdirAll(s.Root, 0o755); err != nil {
 		return nil, err
 	}
-	s.Bases = []string{filepath.Join(s.Root, "A"), filepath.Join(s.Root, "B")}
+	// base 3 cannot be created: F is a regular file
+	s.Bases = []string{filepath.Join(s.Root, "A"), filepath.Join(s.Root, "B"), filepath.Join(s.Root, "F", "sub")}
+	if err := os.WriteFile(filepath.Join(s.Root, "F"), []byte("x"), 0o644); err != nil {
+		return nil, err
+	}
 	s.T0 = time.Now()
 	s.Today = s.T0.Format("20060102")
 	for bi, pre := range c.Pre {
@@ -271,6 +282,8 @@ func NewSession(c *Case) (*Session, error) {
 			}
 		}
 	}
+	s.Tk = b.Source().VerifScriptTickers()
+	s.supplied = map[int64]int64{}
 	s.RPC = dastard.VerifNewRPC(b)
 	s.RPC.SetMapPixels(c.Map)
 	bp := ""
@@ -548,6 +561,43 @@ func (s *Session) FaultStop() *FaultObs {
 	return f
 }
 
+// TLabel calls AnySource.SetExperimentStateLabel with a caller-supplied time stamp (case start + o.Off).
+func (s *Session) TLabel(o Op) bool {
+	abs := s.T0.UnixNano() + o.Off
+	s.supplied[abs] = o.Off
+	return s.B.Source().SetExperimentStateLabel(time.Unix(0, abs), o.Label) == nil
+}
+
+// FaultStartObs is what is seen after the START that follows a faulty STOP.
+type FaultStartObs struct {
+	Rep   Rep
+	Pubs  []PubObs
+	Reply string
+}
+
+// FaultStartStage issues the START (its label cannot be written: the failed handle is still in place) and
+// publishes one record to every channel.
+func (s *Session) FaultStartStage(o Op) *FaultStartObs {
+	cfg := &dastard.WriteControlConfig{Request: o.Req, WriteLJH22: o.L22, WriteLJH3: o.L3, WriteOFF: o.OFF}
+	if o.Path >= 1 {
+		cfg.Path = s.Bases[o.Path-1]
+	}
+	var reply bool
+	err, hung := answered(func() error { return s.RPC.SC.WriteControl(cfg, &reply) })
+	if hung {
+		return nil
+	}
+	f := &FaultStartObs{Rep: s.Reported()}
+	if err != nil {
+		f.Reply = err.Error()
+	}
+	for ch := 0; ch < s.B.VerifNchan(); ch++ {
+		f.Pubs = append(f.Pubs, s.Pub(Op{Op: "PUB", Ch: ch, N: 1}))
+	}
+	s.B.Messages()
+	return f
+}
+
 // ---- files ----
 
 func (s *Session) snapshot() map[string]int64 {
@@ -696,6 +746,12 @@ func (s *Session) Blk(o Op) string {
 			chans[i][j] = 1000
 		}
 	}
+	if o.TickExt {
+		s.Tk.Tick("ext")
+	}
+	if o.TickDrop {
+		s.Tk.Tick("drop")
+	}
 	r := s.B.Block(chans, signed, o.First, 1700000000000000000, 100000, o.Ext, o.Drops)
 	s.B.Messages()
 	return r.Err
@@ -737,17 +793,22 @@ func (s *Session) ReadSideFiles(pattern string) SideFiles {
 			if i < 0 {
 				bad("state line without time stamp: " + line)
 				sf.Labels = append(sf.Labels, line)
+				sf.Stamps = append(sf.Stamps, 0)
 				continue
 			}
 			ts, err := strconv.ParseInt(line[:i], 10, 64)
+			stamp := int64(0)
 			if err != nil || strconv.FormatInt(ts, 10) != line[:i] {
 				bad("time stamp not decimal: " + line)
+			} else if off, ok := s.supplied[ts]; ok {
+				stamp = off // a caller-supplied time stamp, reproduced verbatim
 			} else {
 				if ts < last || ts > now {
 					bad("time stamp out of order or outside the run: " + line)
 				}
 				last = ts
 			}
+			sf.Stamps = append(sf.Stamps, stamp)
 			sf.Labels = append(sf.Labels, line[i+2:])
 		}
 	}
@@ -836,10 +897,10 @@ func GenWC(r *lib.Rng, kind int, twoBases bool) Op {
 	case 0:
 		o.Req = reqStart[r.Intn(len(reqStart))]
 		GenTypes(r, &o)
-		if r.Chance(1, 4) {
+		if r.Chance(1, 3) {
 			o.Path = 1
-			if twoBases && r.Bool() {
-				o.Path = 2
+			if twoBases {
+				o.Path = r.Pick([]int{1, 2, 2, 3})
 			}
 		}
 	case 1:
